@@ -35,7 +35,7 @@ class Run:
     def map(self, jobs, timeout=180.0, lane="default", env=None, progress=None):
         # M-COV on a sample of the jobs (sys.monitoring line events of repository code incl. templates)
         for idx, j in enumerate(jobs):
-            if idx % 7 == 0 and ("doc" in j or "raw_b64" in j) and not j.get("op"):
+            if idx % (1 if os.environ.get("VERIF_COV_ALL") else 7) == 0 and ("doc" in j or "raw_b64" in j) and not j.get("op"):
                 j["cov"] = True
                 j["want"] = list(j.get("want") or []) + ["cov"]
         rs = self.pool.map(jobs, timeout=timeout, lane=lane, env=env, progress=progress or self.prop)
@@ -86,6 +86,12 @@ class Run:
 
     def finish(self) -> int:
         self.pool.close()
+        if os.environ.get("VERIF_COV_DUMP"):
+            # analysis aid (tools/coverage_gaps.py): the raw (file, line) pairs the sampled jobs executed
+            import json as _json
+            os.makedirs(os.environ["VERIF_COV_DUMP"], exist_ok=True)
+            with open(os.path.join(os.environ["VERIF_COV_DUMP"], f"{self.prop}.json"), "w") as fh:
+                _json.dump(sorted(self.cov), fh)
         if self.contracts["engine"]:
             self.ev.extra["contract_evaluations"] = {"engine": self.contracts["engine"], "evaluations_since_last_sample": self.contracts["evaluations"],
                                                      "first_failures(localisation only, not a verdict)": self.contracts["failures"]}
